@@ -338,6 +338,15 @@ def do_call(g, args, kwargs):
     return g.call(*args, **first, **rest)
 
 
+def strip_av(x):
+    """dump.val marks instances of the base class AnnotatedValue with "av": the IR does not distinguish them from Parameters."""
+    if isinstance(x, dict):
+        return {k: strip_av(v) for k, v in x.items() if k != "av"}
+    if isinstance(x, list):
+        return [strip_av(v) for v in x]
+    return x
+
+
 def impl_call(case):
     R = real()
     g = build_def(case["def"])
@@ -348,7 +357,9 @@ def impl_call(case):
     except Exception as e:  # noqa: BLE001 — the class is the result
         return {"err": type(e).__name__}
     try:
-        return {"ok": R["dump"].stmt(st)}
+        d = R["dump"].stmt(st)
+        d["def"].setdefault("unitary", False)  # dump.gatedef omits the field for macros, the Lean codec writes false
+        return {"ok": strip_av(d)}
     except R["dump"].Undumpable:
         return {"ok_undumpable": repr(st)}
 
@@ -558,7 +569,7 @@ def part_validate(rng, n, driver, acc):
     cases = []
     for kind in KINDS:  # the full grid: every kind x every value class (a few random representatives each)
         for cls in VALUE_CLASSES:
-            for _ in range(max(1, n // 400)):
+            for _ in range(max(2, n // 100)):
                 cases.append({"kind": kind, "cls": cls, "val": value_spec(cls, rng)})
     reqs, idx = [], []
     impls = []
@@ -827,7 +838,7 @@ def gen_program(rng, nq, ngates):
             else:
                 args.append(str(rng.randrange(0, 4)))
         variant = rng.choice(["parent", "idle", "stretched", "stretched", "idle_stretched"])
-        sv = rng.choice(["1.7", "0.5", "2", "1e3", "-1.0"])
+        sv = rng.choice(["1.7", "0.5", "2", "1000.0", "-1.0", "2.5e2"])
         a = " ".join(args)
         if variant == "parent":
             full.append(f"{name} {a}")
